@@ -10,7 +10,10 @@ arrays with slice headers; the `bchutil.Tx` wrappers with their hash memo; `appe
 `G`).  `HKeeps h h'` = nothing that existed in `h` has been written, except that EMPTY hash memos of `Tx` wrappers may
 have been filled (`C11_kept_means`).
 
-What the Go code does with caller memory (all of it is stated below):
+What the Go code does with caller memory AFTER the filter scan (all of it is stated below; the two filter builders first
+run `GetMatchedIndices`, which inserts outpoints into the caller's bloom filter message in place — that write is the
+subject of C10 / `Model/BloomObj.lean` and is NOT part of this frame: `newWithFilterH` starts from the scan's result.
+Blocks are meant to hold at least one transaction: for the empty block Go panics, see `Model/MerkleHeap.lean`):
 * the caller's `txnSet` array and its hash objects are only read (`TxInSet` compares `*tx == *next`);
 * the block is written in exactly one way: `tx.Hash()` fills the wrapper's empty memo `txHash` with a pointer to a
   NEW hash object (tx.go:39-49) — the builder calls it (twice) for every transaction;
@@ -43,7 +46,8 @@ theorem C11_kept_means {h h' : Heap H} (k : HKeeps h h') :
    k.meaning.2.2.2.2.2.2.2, k.txs.1, k.txs.2⟩
 
 omit [DecidableEq H] in
-/-- **Frame of all three builders, unconditionally.**  For EVERY heap, block (slice of wrapper pointers), condition
+/-- **Frame of all three builders (for the two filter builders: of the part after the bloom scan), unconditionally.**
+For EVERY heap, block (slice of wrapper pointers), condition
 and growth policy — `sel` is any function of the heap, the transaction's hash pointer and its index, so the theorem
 covers `TxInSet(tx.Hash(), txnSet)` and `matchedMap[txIndex]` alike: nothing that existed is written except empty hash
 memos; the returned message's `Hashes` and `Flags` live in arrays allocated by the call; `matchedIndices` is nil
